@@ -110,6 +110,17 @@ class FnSpec:
         parts = qualname.split(".")
         self.cls = cls if cls is not None else (parts[-2] if len(parts) > 1 and parts[-2][:1].isupper() else None)
 
+    def is_static(self):
+        """@staticmethod on the real definition (read from the source)."""
+        if self.external:
+            return False
+        if not hasattr(self, "_static"):
+            from .engine import load_module, find_def, decorator_names
+
+            tree, _ = load_module(self.relfile)
+            self._static = "staticmethod" in decorator_names(find_def(tree, self.qualname))
+        return self._static
+
     @property
     def ident(self):
         return f"{self.relfile}:{self.qualname}" + (f"[{self.label}]" if self.label else "")
